@@ -274,6 +274,22 @@ pub fn synthetic(ctx: &Ctx, rep: &mut Report) {
     // the committed witness of the known finding first
     check_input(&witness(), "committed-witness", rep);
     check_input(&(vec![2, 0], vec![0, 0], vec![1, 0], vec![0, 0]), "committed-witness-2", rep);
+    // (F,G) = 0 is inside the stated domain ("every (F,G) whose coefficients stay below 2^24"):
+    // it is already reduced, both versions must return it unchanged
+    {
+        let mut rng = rng_for(ctx.seed, "c17-zero-FG");
+        for n in [2usize, 4, 16, 64, 512, 1024] {
+            for w in [1.5f64, 4.0] {
+                let f: Vec<i64> = (0..n).map(|_| gauss(&mut rng, w)).collect();
+                let mut g: Vec<i64> = (0..n).map(|_| gauss(&mut rng, w)).collect();
+                if f.iter().chain(g.iter()).all(|&x| x == 0) {
+                    g[0] = 1;
+                }
+                check_input(&(f, g, vec![0i64; n], vec![0i64; n]), "zero-FG", rep);
+                rep.count("zero_FG_inputs", 1);
+            }
+        }
+    }
     let per_n = ctx.sz(400, 60000);
     let sizes: Vec<usize> = (1..=10).map(|k| 1usize << k).collect();
     let r = par_for(sizes.len() * 8, ncpu(), |job, rep| {
@@ -297,6 +313,7 @@ pub fn synthetic(ctx: &Ctx, rep: &mut Report) {
     rep.require("reduced_ok", 200);
     rep.require("reduced_changed_input", 100);
     rep.require("inputs_n1024", 2);
+    rep.require("zero_FG_inputs", 12);
 }
 
 /// Production inputs: what key generation actually feeds to babai_reduce_i32.
